@@ -1,10 +1,12 @@
 #!/bin/bash
 # Runs every registered check (quick tier by default) and prints exit codes.
+# usage: tools/run_all.sh [quick|thorough] [per-check timeout, e.g. 45m]
 tier=${1:-quick}
+tmo=${2:-4h}
 cd /verif
 for id in $(python3 -c "import json;print(' '.join(c['property_id'] for c in json.load(open('MANIFEST.json'))['checks']))"); do
   t0=$(date +%s)
-  ./bin/gosmt check -property $id -tier $tier > /tmp/runall_$id.log 2>&1
+  timeout $tmo ./bin/gosmt check -property $id -tier $tier > /tmp/runall_${tier}_$id.log 2>&1
   rc=$?
-  echo "$id exit=$rc $(($(date +%s)-t0))s $(tail -1 /tmp/runall_$id.log | cut -c1-200)"
+  echo "$id exit=$rc $(($(date +%s)-t0))s $(tail -1 /tmp/runall_${tier}_$id.log | cut -c1-200)"
 done
